@@ -15,11 +15,24 @@ import Autd3.Drv.Common
 * `io <intensity> <off>…`     record bytes the driver must write          (`<byte>…`)
 * `fw <cw> <16 hex>…`         firmware drives of one pattern, all 249 transducers
                                          (`<249 × 4 hex: phase, intensity>` / `panic`)
+
+Several devices in one geometry (each with its own pose and sound speed; one datagram reaches all of them):
+* `rig`                       forget the kept devices                                        (`ok`)
+* `keep`                      keep the current device (its `pose` and `trs`) as the next index (`ok`)
+* `dev <k>`                   make kept device `k` the current one: the following `ss`/`rec`/`focus`
+      lines are judged against *its* pose, transducers and sound speed                     (`ok`)
 -/
 namespace Autd3.Drv.C07
 open Autd3.Foci Autd3.Drv Autd3.Gen.Foci
 
+structure Kept where
+  pos : V3
+  q : Quat
+  c : Int
+  trs : Array V3
+
 structure St where
+  kept : Array Kept := #[]
   pos : V3 := ⟨0, 0, 0⟩
   q : Quat := ⟨1, 0, 0, 0⟩
   c : Int := 0
@@ -55,8 +68,19 @@ def step (st : St) (line : String) : St × String :=
     | some pos, some w, some i, some j, some k, some c =>
       let q : Quat := ⟨w, i, j, k⟩
       if q.n2 = 0 ∨ c ≤ 0 then (st, "bad-op")
-      else ({ pos := pos, q := q, c := c, hasPose := true, trs := #[] }, "ok")
+      else ({ st with pos := pos, q := q, c := c, hasPose := true, trs := #[] }, "ok")
     | _, _, _, _, _, _ => (st, "bad-op")
+  | ["rig"] => ({ st with kept := #[] }, "ok")
+  | ["keep"] =>
+    if !st.hasPose ∨ st.trs.size ≠ NUM_TRANS_IN_UNIT then (st, "bad-op")
+    else ({ st with kept := st.kept.push ⟨st.pos, st.q, st.c, st.trs⟩ }, "ok")
+  | ["dev", k] =>
+    match k.toNat? with
+    | some k =>
+      match st.kept[k]? with
+      | some d => ({ st with pos := d.pos, q := d.q, c := d.c, hasPose := true, trs := d.trs }, "ok")
+      | none => (st, "bad-op")
+    | none => (st, "bad-op")
   | ["trs", h] =>
     if !st.hasPose then (st, "bad-op") else
     match parseTrs h with
